@@ -115,3 +115,27 @@ Theorem C06_hc_mid_destSize_strict :
     0 < hr_ret r -> strict_valid [] (hr_out r) = Some (load_list src 0 (Z.to_nat (hr_consumed r))).
 Proof. exact compress_HC_destSize_mid_strict. Qed.
 Print Assumptions C06_hc_mid_destSize_strict.
+
+(* HC levels 3-9 (hash chain): every block returned by the one-shot entry points, on a context with any history,
+   is STRICTLY valid (end-of-block conditions included) and decodes to the input. *)
+From LZ4V Require Model.HcChain Proofs.HcChainSearch Proofs.HcChainSound Proofs.HcChainCap Proofs.HcChainParser.
+From LZ4V Require Import Model.HcChainApi Proofs.HcChainApiSound.
+
+Theorem C06_hc_chain_strict :
+  forall c src srcSize cap cLevel,
+    cc_ok c -> src_ok src -> 0 <= srcSize < 2147483648 -> 0 <= cap -> chain_level cLevel = true ->
+    let r := compress_HC_fastReset_chain c src srcSize cap cLevel in
+    0 < cr_ret r ->
+    cr_ret r = Z.of_nat (length (cr_out r)) /\
+    strict_valid [] (cr_out r) = Some (load_list src 0 (Z.to_nat srcSize)).
+Proof. exact chain_strict. Qed.
+Print Assumptions C06_hc_chain_strict.
+
+(* Non-vacuity: a run that ends exactly LASTLITERALS bytes before the end, levels 3 and 9 *)
+Example C06_hc_chain_nonvacuous :
+  let l := repeat 7 55 ++ [1; 2; 3; 4; 5] in
+  let r := compress_HC_chain (mem_of_list 0 l) 60 100 9 in
+  let r3 := compress_HC_chain (mem_of_list 0 l) 60 100 3 in
+  (0 < cr_ret r /\ strict_valid [] (cr_out r) = Some l) /\ (0 < cr_ret r3 /\ strict_valid [] (cr_out r3) = Some l) /\
+  chain_level 9 = true /\ chain_level 3 = true.
+Proof. vm_compute. repeat split; reflexivity. Qed.
